@@ -229,6 +229,14 @@ pub fn stops(ctx: &Ctx) -> BoxedStrategy<Vec<Stop>> {
                 let p = if pin && i == n - 1 { 1.0 } else { pos.min(1.0) };
                 out.push(Stop { pos: p, color: c });
             }
+            // flat segments: in a quarter of the gradients with three or more stops, stops 0/1 (and 2/3) share a colour
+            // (hold, then ramp; hard stripes), which independent random colours never do
+            if n >= 3 && (out[0].color ^ out[n - 1].color) & 3 == 0 {
+                out[1].color = out[0].color;
+                if n >= 4 {
+                    out[3].color = out[2].color;
+                }
+            }
             out
         })
         .boxed()
